@@ -81,7 +81,6 @@ template <class T> struct Driver {
     const size_t n, nn;
     T* a; unsigned char* xp; T* x;
     const ld u;
-    ld last_strict_ratio = 0, strict_max = 0;   // telemetry: residual / (c n u kappa_2 growth), i.e. against the bound without the leading-block kappa
     Driver(fx::Ctx& f, const Job<T>& jj) : fx(f), j(jj), n(jj.n), nn(jj.n * jj.n), u(la::U<T>()) {
         fx.arena[0].paint(); fx.arena[1].paint();
         xp = fx.arena[0].place_mid(j.sizeofM, 64); x = (T*)xp;
@@ -89,22 +88,23 @@ template <class T> struct Driver {
         if (j.sizeofM + 512 > fx.arena[1].cap()) { fprintf(stderr, "c10: operand too large for the arena\n"); abort(); }
     }
     void finish() { fx.frame(0, xp, j.sizeofM, "write outside the result object"); memset(xp, fx::Arena::CAN, j.sizeofM); }
+    // the Schur-complement recursion through explicitly inverted pivot blocks (n > 4; n <= 4 are closed forms): see la::dom_threshold
+    bool explicit_block() const { return n > 4 && ((j.kind <= K_INV_EXPR && (j.strat == 0 || j.strat == 1)) || (j.kind >= K_LAZY_ASSIGN && j.kind <= K_LAZY_EXPR)); }
+    ld ood_worst = 0;   // telemetry: largest residual / bound among the members outside the domain (not judged)
 
     // judge one n x n result X (as stored in T, converted) against measured quantities of A
     // returns "" when every sub-check holds, otherwise the first failing one
     std::string judge(const la::Measured& m, const Mat& X, const Mat* X0, const la::Member& mem, ld* worst_ratio) {
         Mat R(nn), Xe(X);
         const ld cnu = la::CONST_C * (ld)n * u;
-        const bool expl = (j.kind <= K_INV_EXPR && (j.strat == 0 || j.strat == 1)) || (j.kind >= K_LAZY_ASSIGN && j.kind <= K_LAZY_EXPR);
-        ld bound = cnu * m.kappa * m.amp(expl);            // c n u kappa_2(A) * measured amplification (see la::Measured::amp)
-        const ld strict = cnu * m.kappa * m.strict_amp();
+        ld bound = cnu * m.kappa * m.amp();            // c n u kappa_2(A) max(1, growth)
         if (!la::finite_all(X.data(), nn)) return "result contains a non-finite value";
         if (j.kind == K_LAZY_MUL) {   // X = fl(inv(A) * A): left residual formed by the library's own product
             Mat Ai(nn); la::inverse_ld(m.A.data(), Ai.data(), n);
-            const ld b2 = bound + cnu * la::fro(Ai.data(), nn) * m.normF * m.amp(expl);
+            const ld b2 = bound + cnu * la::fro(Ai.data(), nn) * m.normF * m.amp();
             const ld r = la::fro_minus_eye(X.data(), n);
             *worst_ratio = r / b2;
-            if (!(r <= b2)) return "||inv(A)%A - I||_F = " + la::sci(r) + " > " + la::sci(b2) + " = c n u amp (kappa_2 + ||A^-1||_F ||A||_F), kappa_2 = " + la::sci(m.kappa) + ", amp = " + la::sci(m.amp(expl));
+            if (!(r <= b2)) return "||inv(A)%A - I||_F = " + la::sci(r) + " > " + la::sci(b2) + " = c n u growth (kappa_2 + ||A^-1||_F ||A||_F), kappa_2 = " + la::sci(m.kappa) + ", growth = " + la::sci(m.growth);
             return "";
         }
         if (X0) {   // X = X0 + inv(A): remove X0, account for the rounding of the addition
@@ -116,9 +116,8 @@ template <class T> struct Driver {
         la::mul(Xe.data(), m.A.data(), R.data(), n, n, n);
         const ld rl = la::fro_minus_eye(R.data(), n);
         *worst_ratio = (rr > rl ? rr : rl) / bound;
-        last_strict_ratio = X0 ? 0 : (rr > rl ? rr : rl) / strict;
-        if (!(rr <= bound)) return "||A X - I||_F = " + la::sci(rr) + " > " + la::sci(bound) + " = c n u kappa_2(A) amp, kappa_2 = " + la::sci(m.kappa) + ", amp = " + la::sci(m.amp(expl)) + ", growth = " + la::sci(m.growth) + ", max leading-block kappa = " + la::sci(m.lead);
-        if (!(rl <= bound)) return "||X A - I||_F = " + la::sci(rl) + " > " + la::sci(bound) + " = c n u kappa_2(A) amp, kappa_2 = " + la::sci(m.kappa) + ", amp = " + la::sci(m.amp(expl)) + ", growth = " + la::sci(m.growth) + ", max leading-block kappa = " + la::sci(m.lead);
+        if (!(rr <= bound)) return "||A X - I||_F = " + la::sci(rr) + " > " + la::sci(bound) + " = c n u kappa_2(A) growth, kappa_2 = " + la::sci(m.kappa) + ", growth = " + la::sci(m.growth) + ", max leading-block kappa = " + la::sci(m.lead);
+        if (!(rl <= bound)) return "||X A - I||_F = " + la::sci(rl) + " > " + la::sci(bound) + " = c n u kappa_2(A) growth, kappa_2 = " + la::sci(m.kappa) + ", growth = " + la::sci(m.growth) + ", max leading-block kappa = " + la::sci(m.lead);
         // triangular results must be exactly triangular
         if (j.kind == K_TINV_UL || j.kind == K_TINV_LO) for (size_t r = 0; r < n; ++r) for (size_t c = r + 1; c < n; ++c) if (X[r * n + c] != 0) return "result not exactly lower triangular: X(" + std::to_string(r) + "," + std::to_string(c) + ") = " + fx::vstr(X[r * n + c]);
         if (j.kind == K_TINV_UP || j.kind == K_TINV_UU) for (size_t r = 0; r < n; ++r) for (size_t c = 0; c < r; ++c) if (X[r * n + c] != 0) return "result not exactly upper triangular: X(" + std::to_string(r) + "," + std::to_string(c) + ") = " + fx::vstr(X[r * n + c]);
@@ -155,18 +154,14 @@ template <class T> struct Driver {
         const bool tri = j.kind >= K_TINV_UL && j.kind <= K_TINV_LO;
         // domain: unpivoted / pivoted strategies need well-conditioned leading blocks of A / P*A; triangular inversion
         // is defined on every non-singular triangular matrix
-        la::measure<T>(m, n, !tri, piv ? p.data() : nullptr);
+        la::measure<T>(m, n, !tri, piv ? p.data() : nullptr, explicit_block());
         Mat X0;
         if (j.kind == K_LAZY_ADD) { X0.resize(nn); for (size_t i = 0; i < nn; ++i) { x[i] = (T)(1 + (long long)(i % 5)); X0[i] = (ld)x[i]; } }
         else fxv::fill_const(x, nn, fxv::sentinel<T>::v());
         if (!fx.run([&] { j.call(a, xp); })) { memset(xp, fx::Arena::CAN, j.sizeofM); return; }
         Mat X; la::to_ld(x, nn, X);
-        ld ratio = 0; last_strict_ratio = 0;
+        ld ratio = 0;
         std::string why = judge(m, X, X0.empty() ? nullptr : &X0, mem, &ratio);
-        if (m.in_domain && why.empty() && last_strict_ratio > 1) {
-            fx.route("strict.exceeds_cnu_kappa_growth." + std::string(la::FAM_NAME[mem.fam]));
-            if (last_strict_ratio > strict_max) strict_max = last_strict_ratio;
-        }
         const std::string fam = la::FAM_NAME[mem.fam];
         if (m.in_domain) {
             fx.route("dom.in." + fam);
@@ -176,6 +171,8 @@ template <class T> struct Driver {
         } else {
             fx.route("dom.out." + fam);
             fx.route(why.empty() ? "ood.would_pass" : "ood.would_fail");
+            if (explicit_block() && m.lead <= la::dom_threshold<T>(false)) fx.route(why.empty() ? "ood.explicit_block_only.would_pass" : "ood.explicit_block_only.would_fail");
+            if (ratio > ood_worst && ratio < 1.0e300L) ood_worst = ratio;
         }
         finish();
     }
@@ -211,7 +208,7 @@ template <class T> struct Driver {
     void run_all() {
         if (j.kind == K_BATCH3 || j.kind == K_BATCH4) { batched(); return; }
         for (const la::Member& mem : la::members<T>(j.group, n)) one_matrix(mem);
-        if (strict_max > 1) fx.note("strict_max_ratio=" + la::sci(strict_max));
+        if (ood_worst > 0) fx.note("ood_max_ratio=" + la::sci(ood_worst));
     }
 };
 
